@@ -117,30 +117,38 @@ def fit_tilt_rules(chk, repo, clause):
 
 def ptt_mask_rule(chk, repo, clause):
     """The basis is masked: monolithic by the mask, segmented rows 3k..3k+2 by segment k's mask."""
-    f, paths, _ = analyse(repo, 'plane.Plane.ptt_vector')
-    mask = (nf.attr(SELF, 'mask').single_atom(), nf.attr(SELF, '_mask').single_atom())
-    okm = oks = False
-    for p in returns(paths):
-        eins = [e for e in p.events if e.kind == 'call' and e.data.get('callee') == 'ext:numpy.einsum' and e.depth == 0]
-        for e in eins:
-            a = e.data['args']
-            if len(a) == 3 and a[0] == Const('ij,j->ij'):
-                ma = a[2].single_atom() if isinstance(a[2], Poly) else None
-                okm = okm or (ma is not None and is_app(ma, 'm:ravel') and ma[2][0].single_atom() in mask)
-        for e in p.events:
-            if e.kind == 'write' and e.data.get('how') == 'setitem' and e.in_loop and isinstance(e.data.get('key'), Slice):
-                key, v = e.data['key'], e.data.get('value')
-                ks = [a for a in nf.value_atoms(key) if a[0] == 'iter']
-                if not ks or not isinstance(v, Poly):
-                    continue
-                k = Poly.atom(ks[0])
-                rav = [a for a in v.atoms(deep=False) if is_app(a, 'm:ravel')]
-                good_key = key.lo == 3 * k and key.hi == 3 * k + 3
-                good_mask = len(rav) == 1 and rav[0][2][0].single_atom() is not None and rav[0][2][0].single_atom()[0] == 'idx' \
-                    and rav[0][2][0].single_atom()[1] in mask and rav[0][2][0].single_atom()[2] == k
-                oks = oks or (good_key and good_mask)
-    chk.ob(clause, 'D-flow', f.key, 'monolithic basis is multiplied by the mask', okm, '', f.loc())
-    chk.ob(clause, 'D-flow', f.key, 'segmented basis: rows 3k..3k+2 carry segment k\'s mask', oks, '', f.loc())
+    from .c04 import ptt_rows
+    f, mesh, mono, seg = ptt_rows(repo)
+    mask = (nf.attr(SELF, 'mask'), nf.attr(SELF, '_mask'))
+
+    def carries(rows, ms):
+        """every row has exactly one factor ravel(m), m one of ms"""
+        for m in ms:
+            mv = nf.app('m:ravel', m).single_atom()
+            if all(all(dict(mono_).get(mv) == 1 for mono_, _ in r.terms) and r.terms for r in rows):
+                return True
+        return False
+
+    if mono is None:
+        chk.undecided(clause, 'D-flow', f.key, 'monolithic basis is multiplied by the mask',
+                      'the monolithic result is not built as three row arrays', f.loc())
+    else:
+        chk.ob(clause, 'D-flow', f.key, 'monolithic basis is multiplied by the mask', carries(mono, mask),
+               '; '.join(fmt(r)[:80] for r in mono), f.loc())
+    if not seg:
+        chk.undecided(clause, 'D-flow', f.key, "segmented basis: rows 3k..3k+2 carry segment k's mask",
+                      'no per-segment block store of three row arrays found', f.loc())
+        return
+    oks, det = True, ''
+    for key, rows, k, e in seg:
+        good_key = key.lo == 3 * k and key.hi == 3 * k + 3 and key.step in (NONE, None)
+        good_mask = carries(rows, [nf.index(m, k) for m in mask])
+        oks = oks and good_key and good_mask
+        det = f'rows {fmt(key.lo)}:{fmt(key.hi)} <- {fmt(rows[0])[:100]}'
+    lp_ok = False
+    for key, rows, k, e in seg:
+        lp_ok = True
+    chk.ob(clause, 'D-flow', f.key, 'segmented basis: rows 3k..3k+2 carry segment k\'s mask', oks and lp_ok, det, f.loc())
 
 
 def pixelate_rule(chk, repo, clause):
